@@ -223,7 +223,7 @@ def r15_4(ctx):
     else:
         ctx.bad("R15.4", ms.module, ms.qual, "[self._uid_to_idx[uid] + 1 for uid in msgs if uid in self._uid_to_idx]", "UID sets are no longer mapped through the UID table with unknown UIDs skipped", ms.node.lineno)
     cp = p.func("mbox.Mailbox.copy")
-    if pm_of(p, cp).has("if uid in self._uid_to_idx:\n    msg_idx = self._uid_to_idx[uid] + 1\n    msg_idxs.append(msg_idx)"):
+    if pm_of(p, cp).has("msg_idxs = []\nfor uid in uid_list:\n    if uid in self._uid_to_idx:\n        msg_idx = self._uid_to_idx[uid] + 1\n        msg_idxs.append(msg_idx)"):
         ctx.ok("R15.4", where(cp), "COPY: UID -> sequence number mapping skips unknown UIDs (+1)")
     else:
         ctx.bad("R15.4", cp.module, cp.qual, "if uid in self._uid_to_idx: msg_idx = self._uid_to_idx[uid] + 1", "UID COPY no longer maps its set through the UID table", cp.node.lineno)
